@@ -19,7 +19,7 @@ RULE = ('cases = reshape of TT tensors of order<=4 (sizes from {1,2,3,4,6}) to e
 ASSUMPTIONS = ['"a small multiple of eps" is fixed a priori as 10*eps; the maximum observed ratio is reported',
                'qtt_to_tens is exercised on tensors only (the property says tensors); mode sizes up to 32']
 REQUIRED_REACH = ['_extras:reshape', '_extras:permute', '_tt_base:TT.to_qtt', '_tt_base:TT.qtt_to_tens', '_decomposition:rl_orthogonal']
-REQUIRED_COUNTS = {'reshape/tensor': 1, 'reshape/operator': 1, 'permute/tensor': 1, 'permute/operator': 1, 'to_qtt/tensor': 1, 'to_qtt/operator': 1, 'qtt_roundtrip': 1,
+REQUIRED_COUNTS = {'history_value_checks': 200, 'reshape/tensor': 1, 'reshape/operator': 1, 'permute/tensor': 1, 'permute/operator': 1, 'to_qtt/tensor': 1, 'to_qtt/operator': 1, 'qtt_roundtrip': 1,
                    'target:trailing-ones': 1, 'target:leading-ones': 1, 'target:split': 1, 'target:merge': 1, 'truncation_active': 5}
 LINE_FUNCS = ['reshape', 'permute', 'TT.to_qtt', 'TT.qtt_to_tens']
 CASE_TIMEOUT = {'quick': 120, 'thorough': 300}
@@ -111,6 +111,8 @@ def cases(tier, seed):
         cs.append({'gen': 'qtt', 'N': N, 'ttm': i % 4 == 3, 'eps': [None, 1e-10, 1e-4, 1e-1][i % 4], 'vals': ['gauss', 'decay', 'tiny'][i % 3], 'dtype': DTS[(i // 4) % 4], 'ms': 2})
     for N in ([3], [9], [27], [3, 9], [9, 9]):
         cs.append({'gen': 'qtt', 'N': N, 'ttm': False, 'eps': None, 'vals': 'gauss', 'dtype': 'f64', 'ms': 3})
+    from .. import hist
+    cs += hist.cases(PROP, tier, seed)
     return cs
 
 
@@ -196,6 +198,11 @@ def judge(ctx, key, what, x_info, y, ref, eps_used, wantN, wantM, sig):
 def run_case(case, ctx):
     g = gens.tgen(case['seed'])
     globals()['run_' + case['gen']](case, ctx, g)
+
+
+def run_hist(case, ctx, g):
+    from .. import hist
+    hist.run(PROP, case, ctx)
 
 
 def _info(x):
